@@ -37,6 +37,7 @@ Pattern(n, name) ==
     [] name = "blocks" -> [i \in 1 .. n |-> ((i - 1) \div 4) % 256]
     [] name = "tail"   -> [i \in 1 .. n |-> IF i = n THEN 254 ELSE 3]        \* the last opening alone at its index
     [] name = "spread" -> [i \in 1 .. n |-> ((i * 37 + Seed) % 256)]
+    [] name = "same+"  -> [i \in 1 .. n |-> IF i <= 256 THEN 9 ELSE (i * 37) % 256]   \* exactly 256 openings at one index, the rest elsewhere
 BigZs == {Pattern(n, p) : n \in {k \in BigN : k >= 1}, p \in (IF Quick THEN {"two", "spread"} ELSE {"same", "cycle", "two", "blocks", "tail", "spread"})}
 
 PolyAssign(n, name) == CASE name = "one" -> [i \in 1 .. n |-> 0]
@@ -69,6 +70,9 @@ MpShapes ==
   \* many openings: beyond 256 (more openings than domain points), beyond 512 and 1024 (thresholds of batching / buffering code)
   \cup {<<Pattern(n, "spread"), "pair", TRUE, "norm">> : n \in (IF Quick THEN {520} ELSE {257, 520, 1030})}
   \cup {<<zs, pa, sh, "mixed">> : zs \in BigZs, pa \in {"cycle"}, sh \in (IF Quick THEN {TRUE} ELSE BOOLEAN)}
+  \* per-index multiplicities at the width of a byte counter: 256 openings (thorough: 255, 257, 512) at ONE index, alone or next to others
+  \cup {<<Pattern(n, "same"), "pair", TRUE, "norm">> : n \in (IF Quick THEN {256} ELSE {255, 256, 257, 512})}
+  \cup {<<Pattern(259, "same+"), "pair", TRUE, "norm">>}
 CpuShapes == {<<Pattern(n, p), "cycle", TRUE, "mixed">> : n \in {k \in {NCpu - 1, NCpu, NCpu + 1, 2 * NCpu + 3} : k >= 1}, p \in {"cycle", "tail"}}
 PerturbShapes ==
   {<<zs, "cycle", FALSE, "mixed">> : zs \in (IF Quick THEN { <<255>>, <<0, 255>>, <<5, 200, 5>>, <<0, 1, 254, 255>>, <<200, 200>> } ELSE SmallZs)}
@@ -76,6 +80,9 @@ PerturbShapes ==
   \cup {<<Pattern(n, "two"), "cycle", FALSE, "mixed">> : n \in (IF Quick THEN {2 * NCpu + 3} ELSE {NCpu + 1, 2 * NCpu + 3, 100})}
   \* zero-valued openings of non-zero polynomials: alone at their index, sharing it with a non-zero value, sharing it with another zero
   \cup {<<zs, "zeros", FALSE, "norm">> : zs \in { <<3, 77>>, <<10, 10, 200>>, <<3, 77, 9, 200, 3>> }}
+  \cup {<<Pattern(n, "same"), "pair", TRUE, "norm">> : n \in (IF Quick THEN {256} ELSE {255, 256, 512})}
+  \cup {<<Pattern(259, "same+"), "pair", TRUE, "norm">>}
+ManyPerturb == << Pt("y", 0, "+1"), Pt("fake", 0, "other"), Pt("C", 1, "id") >>       \* the long shapes get a short list
 ArrivalShapes == {<<Pattern(n, p), "cycle", sh, "mixed">> : n \in {NCpu - 1, NCpu + 1, 2 * NCpu + 3}, p \in {"two", "blocks"}, sh \in {FALSE}}
 MpSeq == SetToSeq(IF Part = "mp_arrival" THEN ArrivalShapes ELSE IF Part = "mp_cpu" THEN CpuShapes ELSE IF Part = "mp_perturb" THEN PerturbShapes ELSE MpShapes)
 MpProgs == [k \in 1 .. Len(MpSeq) |->
@@ -83,6 +90,7 @@ MpProgs == [k \in 1 .. Len(MpSeq) |->
                ops |-> Ops(MpSeq[k][1], PolyAssign(Len(MpSeq[k][1]), MpSeq[k][2]), MpSeq[k][3], MpSeq[k][4]),
                arrival |-> IF Part = "mp_arrival" THEN <<"rev", "rot", "evenodd">>[(k % 3) + 1] ELSE "",
                perturb |-> IF Part # "mp_perturb" THEN <<>>
+                           ELSE IF Len(MpSeq[k][1]) >= 200 THEN ManyPerturb
                            ELSE IF Quick THEN [j \in 1 .. 8 |-> AllPerturb[((k * 8 + j + Seed) % Len(AllPerturb)) + 1]]
                            ELSE AllPerturb]]
 
